@@ -87,7 +87,7 @@ Qed.
 
 (* the last information PDU: the payload goes to the application, which answers with resp *)
 Lemma ready_last t q acc d resp rest : Ready t q acc -> fmt d = F_INF -> pni d = q ->
-  t_app t = (0, resp) :: rest -> resp <> [] ->
+  t_app t = ([], resp) :: rest -> resp <> [] ->
   let t' := mktgt (Some q) (TSend resp) (Some (inf q resp)) rest (t_out t ++ [TOk (acc ++ data d)]) (t_rtx t) (act_after t) in
   t_accept tc t d = (t', Some (PDepRes (inf q resp))) /\ Sending t' q resp.
 Proof.
@@ -98,8 +98,8 @@ Proof.
   assert (Hstart : forall a pos res0,
      t_app_step tc (mktgt (Some q) pos res0 (t_app t) (t_out t) (t_rtx t) a) (acc ++ data d) =
      (mktgt (Some q) (TSend resp) (Some (inf q resp)) rest (t_out t ++ [TOk (acc ++ data d)]) (t_rtx t) a, Some (PDepRes (inf q resp)))).
-  { intros a pos res0. unfold t_app_step. cbn [t_app t_pni t_pos t_res t_out t_rtx t_act]. rewrite Happ.
-    change (0 <? 0) with false. cbv iota. unfold t_start_send. destruct resp as [|b resp']; [congruence|].
+  { intros a pos res0. unfold t_app_step, t_app_continue. cbn [t_app t_pni t_pos t_res t_out t_rtx t_act]. rewrite Happ.
+    unfold t_start_send. destruct resp as [|b resp']; [congruence|].
     cbn [t_pni t_emit t_pos t_res t_app t_out t_rtx t_act]. reflexivity. }
   unfold t_accept, act_after.
   destruct Hc as [(Hpos & -> & -> & Hn)|[(sd & pt & Hpos & Hl & Hn & -> & ->)|(pt & Hpos & Hn & ->)]]; rewrite Hpos.
